@@ -25,6 +25,10 @@ pub struct Case {
     /// delete must still not remove anything the kept versions reference.
     #[serde(default)]
     pub missing_block: Option<u16>,
+    /// The tails of the complete versions carry no `index_hunk_count`, as those written by
+    /// conserve before 0.6.4 (the key is optional in the format; such archives are supported).
+    #[serde(default)]
+    pub legacy_tails: bool,
 }
 
 fn strategy(_tier: Tier) -> BoxedStrategy<Case> {
@@ -42,8 +46,9 @@ fn strategy(_tier: Tier) -> BoxedStrategy<Case> {
         prop::collection::vec(any::<u16>(), 0..4),
         prop::bool::weighted(0.2),
         prop::option::weighted(0.3, any::<u16>()),
+        prop::bool::weighted(0.2),
     )
-        .prop_map(|(hist, sel, dry_run, missing_block)| Case { hist, sel, dry_run, missing_block })
+        .prop_map(|(hist, sel, dry_run, missing_block, legacy_tails)| Case { hist, sel, dry_run, missing_block, legacy_tails })
         .boxed()
 }
 
@@ -95,6 +100,25 @@ fn run_inner(case: &Case, cx: &mut Cx) -> CaseResult {
         .collect();
     requested.sort();
     requested.dedup();
+    // the order in which the versions are named is the caller's: ascending, descending, rotated
+    match case.sel.first().map(|x| x % 3) {
+        Some(1) => requested.reverse(),
+        Some(2) if requested.len() > 1 => requested.rotate_left(1),
+        _ => {}
+    }
+    if case.legacy_tails {
+        for id in w.bands.keys() {
+            let p = w.arch.join(format::band_dirname(*id)).join("BANDTAIL");
+            if let Ok(bytes) = std::fs::read(&p) {
+                if let Ok(serde_json::Value::Object(mut m)) = serde_json::from_slice::<serde_json::Value>(&bytes) {
+                    m.remove("index_hunk_count");
+                    std::fs::write(&p, serde_json::to_vec(&serde_json::Value::Object(m)).unwrap()).unwrap();
+                }
+            }
+        }
+        cx.label("tails-without-hunk-count");
+    }
+    cx.label_if(requested.windows(2).any(|w| w[0] > w[1]), "versions-named-out-of-order");
     if let Some(frac) = case.missing_block {
         return run_with_missing_block(&w, &requested, frac, cx);
     }
